@@ -277,6 +277,13 @@ func (util LDUtil) Canonicalize(input interface{}) (result interface{}, err erro
 	normalizeOptions.Format = "application/n-quads"
 	normalizeOptions.Algorithm = "URDNA2015"
 
+	defer func() {
+		// The JSON-LD library panics on some malformed documents (e.g. a scalar where a graph container is expected).
+		// The input is untrusted (credentials, presentations, downloaded status lists): report it as an error instead.
+		if r := recover(); r != nil {
+			result, err = nil, fmt.Errorf("unable to normalize the json-ld document: %v", r)
+		}
+	}()
 	result, err = proc.Normalize(optionsMap, normalizeOptions)
 	if err != nil {
 		return nil, fmt.Errorf("unable to normalize the json-ld document: %w", err)
